@@ -38,6 +38,7 @@ UNARY = [
     "(t / 2).long()", "(t * 0.75).int()", "t.long() % 2", "(t * 1.5).to(torch.long)", "(t / 4).to(dtype=torch.int64)", "t.long() ^ 1", "(t.long() & 1) ^ (t.long() >> 1 & 1)", "t[::2]", "t[1::2]", "t[..., 1::2]", "t.flatten()[::3]",
     "t.permute(*range(t.dim() - 1, -1, -1))", "t.transpose(0, -1).transpose(0, -1)", "t.unsqueeze(-1)", "t.unsqueeze(1)", "t.unsqueeze(t.dim())", "t.repeat(*([2] * t.dim()))", "t.repeat(2, *([1] * t.dim()))", "t.cumsum({d})", "t.cumsum(dim={d})",
     "torch.where(t > 0, t, torch.zeros_like(t))", "torch.where(t.abs() > 1, torch.ones_like(t), -torch.ones_like(t))", "t @ t.transpose(-1, -2) if t.dim() >= 2 else t @ t", "t.swapaxes(0, -1)",
+    "torch.view_as_real(torch.complex(t, -t))", "torch.abs(torch.view_as_real(torch.complex(t, 2 * t))).any(dim=-1)", "(torch.abs(torch.view_as_real(torch.complex(t, t))) > 1).any(dim=-1).sum()",
     "torch.real(torch.complex(t, -t) * torch.conj(torch.complex(t, -t)))", "torch.imag(torch.complex(t, 2 * t))", "torch.complex(t, -t).real + torch.complex(t, -t).imag", "torch.abs(torch.complex(t, t)) ** 2", "torch.complex(t, -t).conj().imag",
     "t.masked_fill(t > 0, float('inf')).amin(dim={d})", "t.masked_fill(t <= 0, float('-inf')).amax(dim={d})", "torch.amin(t, dim={d})", "t.amax(dim={d}, keepdim=True)", "t.masked_fill(t == 0, 5)", "(t.unsqueeze(-1) - t.flatten()[:2]) ** 2",
     "t.unbind(dim={d})[0]", "t.unbind({d})[-1]", "len(t.unbind(dim={d}))", "t.unbind()[0]",
